@@ -1003,7 +1003,11 @@ func (multi *MultiEpoch) processSlotTransactions(
 								}
 							}
 
-							buffer.add(txResp.Slot, *txResp.Index, txResp)
+							var txIndex uint64
+							if txResp.Index != nil {
+								txIndex = *txResp.Index
+							}
+							buffer.add(txResp.Slot, txIndex, txResp)
 						}
 					}
 				}
